@@ -90,7 +90,7 @@ def finish(cid, tier, seed, level, sr, res, rep, agg, samples, extra_cov, t0, ex
         "rule": "one evaluation = one symbolic path (a polytope of deviate sequences) of one unit; paths are distinct by construction (disjoint path conditions) and all are non-trivial (each has at least one solver-decided branch or is the unit's only path)",
         "samples": samples,
         "engine": "E1 symx (z3 4.8.12, reals+UF) + E2 f2x",
-        "bound_K": sr.K, "paths_cut_at_bound": agg["paths_cut_bound"], "solver_queries": agg["branch_queries"] + agg["prove_queries"],
+        "bound_K": sr.K, "k_fallback": getattr(sr, "k_fallback", []), "paths_cut_at_bound": agg["paths_cut_bound"], "solver_queries": agg["branch_queries"] + agg["prove_queries"],
         "branch_unknown": agg["branch_unknown"], "inconclusive_obligations": agg["obl_unknown"] + agg["inconclusive"], "solver_seconds": agg["solver_seconds"],
         "max_deviates_per_path": agg["max_draws"], "incomplete_units": agg["incomplete"], "build_s": round(sr.build_s, 1),
         "explanation": explanation,
